@@ -421,15 +421,24 @@ def callraises_as(cname, fn, *args, **kw):
         return False
 
 
+def _is_dc(x):
+    import dataclasses as _dc
+    return _dc.is_dataclass(x) and not isinstance(x, type)
+
+
 def rt_eq(a, b, _d=0):
     """== of the model: Python equality, structural for converter objects that define no __eq__"""
-    try:
-        if a == b:
-            return True
-    except Exception:
-        pass
+    if not (_is_dc(a) and _is_dc(b)):
+        try:
+            if a == b:
+                return True
+        except Exception:
+            pass
     import types as _types
     import dataclasses as _dc
+    if isinstance(a, _traceback.TracebackException) and isinstance(b, _traceback.TracebackException):
+        # the same failure reached through different call stacks is the same cause
+        return ''.join(a.format_exception_only()) == ''.join(b.format_exception_only())
     if isinstance(a, _types.FunctionType) and isinstance(b, _types.FunctionType) and _d < 6:
         # two closures over the same code with equal captured values are the same function value
         if a.__code__ is not b.__code__:
